@@ -50,5 +50,5 @@ MANIFEST = {
     "engine": "sched",
     "technique": "property-based testing with controlled schedules: generated DAGs and priorities, scheduler-knowledge model replayed over the event trace, closed-form compound priority",
     "level_text": "Exploration. The controller makes the ready set at every dispatch decision exact (no timing), so every decision of the real scheduler is compared with the definition; sub-graph executions use the same oracle. Absence only within generated shapes (<= 9 sites) and sampled / enumerated completion orders.",
-    "level_note": "Trusted: the harness's compound-priority definition and ready-set model (vlib/oracle.py Know); dispatch of async-thread nodes is observed at asyncio.ensure_future.",
+    "level_note": "Thorough tier additionally enumerates a complete small scope (every DAG on 4 ordered nodes x the property's own dimension - priorities / sequential subsets / failing node - with the whole completion-order tree of each). Trusted: the harness's compound-priority definition and ready-set model (vlib/oracle.py Know); dispatch of async-thread nodes is observed at asyncio.ensure_future.",
 }
